@@ -69,11 +69,30 @@ func libraryAPIs() []builderAPI {
 			return obs, nil, err
 		}
 	}
-	xopts := xmldsig.SignOptions{IncludeX509: true, IncludeKeyValue: true}
-	return []builderAPI{
+	out := []builderAPI{
 		{"pkcs7-builder", cms(false)},
 		{"pkcs7-builder+signed-attributes", cms(true)},
-		{"xmldsig-sign", func(signer crypto.Signer, certs []*x509.Certificate) ([]sigObs, error, error) {
+	}
+	// the XML-DSig guard under every combination of what goes into KeyInfo: a
+	// caller that asks for a bare KeyValue (VSIX with detached certificates)
+	// embeds the same certificate list elsewhere in the package
+	for _, xv := range []struct {
+		suffix string
+		opts   xmldsig.SignOptions
+	}{
+		{"", xmldsig.SignOptions{IncludeX509: true, IncludeKeyValue: true}},
+		{"(x509data-only)", xmldsig.SignOptions{IncludeX509: true}},
+		{"(keyvalue-only)", xmldsig.SignOptions{IncludeKeyValue: true}},
+		{"(keyvalue-only,rec-c14n)", xmldsig.SignOptions{IncludeKeyValue: true, UseRecC14n: true}},
+	} {
+		out = append(out, xmlAPIs(xv.suffix, xv.opts)...)
+	}
+	return out
+}
+
+func xmlAPIs(suffix string, xopts xmldsig.SignOptions) []builderAPI {
+	return []builderAPI{
+		{"xmldsig-sign" + suffix, func(signer crypto.Signer, certs []*x509.Certificate) ([]sigObs, error, error) {
 			doc := etree.NewDocument()
 			root := doc.CreateElement("root")
 			root.CreateElement("a").SetText("text")
@@ -87,7 +106,7 @@ func libraryAPIs() []builderAPI {
 			obs, err := xmlObs("xmldsig", blob, nil)
 			return obs, nil, err
 		}},
-		{"xmldsig-sign-enveloping", func(signer crypto.Signer, certs []*x509.Certificate) ([]sigObs, error, error) {
+		{"xmldsig-sign-enveloping" + suffix, func(signer crypto.Signer, certs []*x509.Certificate) ([]sigObs, error, error) {
 			obj := etree.NewElement("Object")
 			obj.CreateAttr("Id", "obj")
 			obj.CreateElement("a").SetText("text")
@@ -156,7 +175,8 @@ func libraryCases() (n int) {
 				}
 				bad := false
 				for _, o := range obs {
-					if o.VerifyErr != nil || len(o.Problems) > 0 || o.Leaf == nil || string(o.Leaf.Raw) != string(M.Leaf[k].Raw) || o.First == nil || string(o.First.Raw) != string(o.Leaf.Raw) {
+					keyOnly := o.Leaf == nil && o.Key != nil && samePub(o.Key, M.Signer[k].Public())
+					if o.VerifyErr != nil || len(o.Problems) > 0 || !keyOnly && (o.Leaf == nil || string(o.Leaf.Raw) != string(M.Leaf[k].Raw) || o.First == nil || string(o.First.Raw) != string(o.Leaf.Raw)) {
 						bad = true
 						key := "library:" + api.Name + ":consistent-input-yields-inconsistent-signature"
 						if !extraKnown[key] {
